@@ -238,7 +238,7 @@ def expected(case, pal):
             if e["b_factor"] is None:
                 e["b_factor"] = [20.25 + p for p in range(n)]
             e["b_factor"][loc] = f32(v) if f == "b_factor32" else float(v)
-            e["b32"] = f == "b_factor32"
+            e["b32"] = e["b32"] or f == "b_factor32"
         elif f == "occupancy":
             if e["occupancy"] is None:
                 e["occupancy"] = [0.5] * n
@@ -258,6 +258,8 @@ def expected(case, pal):
             e["box"] = [[f32(x) for x in row] for row in vec]
         else:
             e[f][loc] = v
+    if e["b32"]:  # one float32 annotation array: every B-factor of the structure is a float32 value
+        e["b_factor"] = [f32(x) for x in e["b_factor"]]
     return e
 
 
@@ -371,7 +373,10 @@ def classify(case):
     n = case["shape"][2]
     devs = sorted(case["devs"], key=lambda d: (FIELD_ORDER.index(d[0]), json.dumps(d[1]), json.dumps(d[2])))
     per = []
+    b32 = any(d[0] == "b_factor32" for d in devs)
     for d in devs:
+        if b32 and d[0] == "b_factor":
+            d = ["b_factor32", d[1], d[2]]  # stored in the same float32 array
         per += classify_dev(d, case["h36"], n)
     refuse = [t for c, t in per if c == "R"]
     if refuse:
@@ -446,7 +451,9 @@ def check_layout(lines, e, h36, cl):
             if i >= len(rows) or not rows[i].startswith("MODEL "):
                 return "MODEL", "missing for model %d" % (mm + 1)
             try:
-                ok = mm + 1 > 9999 or int(rows[i][10:14]) == mm + 1  # serial beyond 4 columns: unspecified
+                # serial right-justified in columns 11-14; beyond 4 columns: unspecified
+                ok = mm + 1 > 9999 or (int(rows[i][10:14]) == mm + 1 and bool(M._INT.match(rows[i][10:14]))
+                                       and not rows[i][14:].strip())
             except ValueError:
                 ok = False
             if not ok:
@@ -593,7 +600,7 @@ def readback(lines, e, cl):
         bad = compare(s, e, list(range(m)), cl, "get_structure()")
         if bad:
             return ("roundtrip_" + bad[0],) + bad[1:]
-        ks = list(range(1, m + 1)) if m <= 50 else sorted({1, 2, 9, 10, 11, 99, 100, 101, m // 2, m - 1, m})
+        ks = list(range(1, m + 1)) if m <= 50 else sorted(k for k in {1, 2, 9, 10, 11, 99, 100, 101, 999, 1000, 1001, m // 2, m - 1, m} if k <= m)
         for k in ks + [-1] + ([-m] if m > 50 else []):
             a = g.get_structure(model=k, extra_fields=EXTRA)
             bad = compare(a, e, [k - 1 if k > 0 else m + k], cl, "get_structure(model=%d)" % k)
@@ -808,6 +815,7 @@ def shards(tier, seed):
     out += codec_shards(tier)
     out += [{"kind": "big", "h36": True}, {"kind": "big", "h36": False}]
     out += reuse_shards(tier)
+    out += audit_shards(tier)
     big = [s for s in out if s["kind"] == "big" or (s["kind"] == "codec" and s.get("w") == 5)]
     rest = [s for s in out if s not in big]
     k = seed % max(1, len(rest))
@@ -836,6 +844,9 @@ def run_shard(shard, ctx):
         run_big(shard, ctx)
     elif k == "reuse":
         run_reuse(shard, ctx)
+    elif k == "audit":
+        for case in audit_cases(shard, ctx.tier):
+            run_audit_case(ctx, case, count=True)
     else:
         raise ValueError(shard)
 
@@ -866,6 +877,8 @@ def replay(case, ctx):
         run_big(case, ctx)
     elif k == "reuse":
         run_reuse_case(ctx, case)
+    elif k == "audit":
+        run_audit_case(ctx, case)
     else:
         raise ValueError(case)
 
@@ -885,6 +898,7 @@ def codec_shards(tier):
     else:
         out += [{"kind": "codec", "what": "edges", "w": 5, "blocks": [b, min(53, b + 14)]} for b in range(0, 53, 14)]
     out.append({"kind": "codec", "what": "refuse"})
+    out.append({"kind": "codec", "what": "argtypes"})
     out += [{"kind": "codec", "what": "texts", "w": w} for w in (1, 2, 3, 4, 5)]
     return out
 
@@ -985,8 +999,44 @@ def run_codec(shard, ctx):
             t = "".join(tup)
             ctx.ev(1, 1)
             replay_codec(ctx, {"kind": "codec", "what": "text", "w": w, "text": t}, (enc, dec), count=True)
+    elif what == "argtypes":
+        for w in (4, 5):
+            for i in (0, 7, 10 ** w - 1, 10 ** w, 10 ** w + 26 * 36 ** (w - 1), M.hy36_max(w)):
+                for vt in ARG_INT_TYPES:
+                    for wt in ARG_LEN_TYPES:
+                        ctx.ev(1, 1)
+                        replay_codec(ctx, {"kind": "codec", "what": "argtype", "w": w, "i": i, "vt": vt, "wt": wt},
+                                     (enc, dec), count=True)
     else:
         raise ValueError(shard)
+
+
+ARG_INT_TYPES = ["int", "bool", "int8", "int16", "int32", "int64", "uint8", "uint16", "uint32", "uint64", "0d", "float",
+                 "float64", "intsub"]
+ARG_LEN_TYPES = ["int", "int64", "uint8", "float"]
+ARG_STR_TYPES = ["str", "str_", "strsub", "bytes"]
+
+
+class _IntSub(int):
+    pass
+
+
+class _StrSub(str):
+    pass
+
+
+def _as_type(v, t):
+    if t == "int":
+        return int(v)
+    if t == "bool":
+        return bool(v)
+    if t == "0d":
+        return np.array(v)
+    if t == "float":
+        return float(v)
+    if t == "intsub":
+        return _IntSub(v)
+    return getattr(np, t)(v)
 
 
 def replay_codec(ctx, case, fns=None, count=False):
@@ -1030,6 +1080,44 @@ def replay_codec(ctx, case, fns=None, count=False):
             if not ok:
                 codec_fail(ctx, "encode_hybrid36", "wrong_text", "negative", "negative number encoded to a wrong text",
                            body, "exception or %r" % str(i), r[1])
+    elif what == "argtype":
+        # ARRAY FLAVOURS of the scalar arguments: numpy integer scalars of every width that holds the value must
+        # behave like the Python int; other representations: exception or the int result
+        w, i, vt, wt = case["w"], case["i"], case["vt"], case["wt"]
+        fits = vt in ("int", "intsub", "int64", "uint64", "uint32", "0d", "float", "float64") or (
+            vt == "bool" and i in (0, 1)) or (vt in ("int32",) and i < 2 ** 31) or (
+            vt[-1:] in "68" and vt not in ("int64", "float64") and i < 2 ** (int(vt.lstrip("uint")) - (0 if vt[0] == "u" else 1)))
+        if not fits:
+            ctx.count("skipped_value_not_representable")
+            return
+        strict = vt in ("int", "intsub", "int8", "int16", "int32", "int64", "uint8", "uint16", "uint32", "uint64") and wt in (
+            "int", "int64", "uint8")
+        if count:
+            ctx.count("accepted" if strict else "unspecified")
+        want = M.hy36_encode(i, w)
+        try:
+            got = ("returned", enc(_as_type(i, vt), _as_type(w, wt)))
+        except Exception as x:  # noqa: BLE001
+            got = ("raised", type(x).__name__)
+        ctx.outcome(("argtype", w, i, vt, wt, got))
+        if got[0] == "raised":
+            if strict:
+                codec_fail(ctx, "encode_hybrid36", "unexpected_" + got[1], "argument_%s_length_%s" % (vt, wt),
+                           "integer argument of another integer type refused", body, want, got[1])
+            return
+        if not isinstance(got[1], str) or got[1].strip() != want:
+            codec_fail(ctx, "encode_hybrid36", "wrong_text", "argument_%s_length_%s" % (vt, wt),
+                       "result depends on the representation of the argument", body, want, got[1])
+            return
+        for st in ARG_STR_TYPES if vt == "int" and wt == "int" else ():
+            text = {"str": want, "str_": np.str_(want), "strsub": _StrSub(want), "bytes": want.encode()}[st]
+            try:
+                back = ("returned", dec(text))
+            except Exception as x:  # noqa: BLE001
+                back = ("raised", type(x).__name__)
+            if back[0] == "returned" and back[1] != i or (back[0] == "raised" and st == "str"):
+                codec_fail(ctx, "decode_hybrid36", "wrong_value", "argument_" + st, "decode depends on the string type", body, i, back[1])
+                return
     elif what == "text":
         t = case["text"]
         try:
@@ -1305,10 +1393,11 @@ def run_bond_case(ctx, case, count=False):
 
     def pclass(pr):
         i, j = sorted(pr)
-        suffix = "_ids_" + case["ids"] if case["ids"] in UNSPECIFIED_IDS else ""
-        return pair_class(atoms[i], atoms[j], deg[i] > 4 or deg[j] > 4) + suffix
+        return pair_class(atoms[i], atoms[j], deg[i] > 4 or deg[j] > 4)
 
     def fail(site, mode, klass, what, exp, obs):
+        if case["ids"] in UNSPECIFIED_IDS and site == "PDBFile.get_structure" and mode.startswith("bond_"):
+            mode, klass = "bonds_differ", "atom_ids_" + case["ids"]  # one cause, one signature
         ctx.violation("%s|%s|%s" % (site, mode, klass), what, case, expected=exp, observed=obs)
 
     arr = build(e, case["stack"])
@@ -1543,6 +1632,7 @@ REUSE_ITEMS = {
     "s3n1b": {"m": 3, "n": 1, "stack": True, "box": "ortho"},
     "s2n4c": {"m": 2, "n": 4, "stack": True, "bonds": "star", "bfac": True},
     "a4c": {"m": 1, "n": 4, "stack": False, "bonds": "chain"},
+    "a2w": {"m": 1, "n": 2, "stack": False, "wrap_ids": True},  # decimal mode, ids beyond the columns: documented wrap
 }
 REUSE_BAD = {
     "bad_chain5": {"m": 1, "n": 5, "stack": False, "bad": "chain"},
@@ -1574,6 +1664,9 @@ def reuse_build(name):
     if spec.get("bfac"):
         e["b_factor"] = [30.5 + p for p in range(n)]
     if spec.get("big_ids"):
+        e["atom_id"] = [99999 + p for p in range(n)]
+        e["res_id"] = [9999 + p for p in range(n)]
+    if spec.get("wrap_ids"):
         e["atom_id"] = [99999 + p for p in range(n)]
         e["res_id"] = [9999 + p for p in range(n)]
     if spec.get("box"):
@@ -1760,3 +1853,468 @@ def run_reuse_case(ctx, case, count=False):
         if not bad and len(ctx.samples) < 1 and len(ops) >= 3:
             ctx.sample({**case, "final_content": content, "getters_compared": [g[0] for g in REUSE_GETTERS]})
     return bad
+
+
+# ---------------------------------------------------------------------------
+# audit families: many models, argument aliasing, array flavours, empty pieces / I/O paths
+# ---------------------------------------------------------------------------
+AUDIT_DEPTHS = [9, 10, 11, 99, 100, 101, 999, 1000, 1001]
+AUDIT_DEPTHS_BIG = [9999, 10000, 10001]
+INT_DTYPES = ["int8", "int16", "int32", "int64", "uint8", "uint16", "uint32", "uint64"]
+IO_PATHS = ["stringio", "file", "fileobj", "rstrip", "crlf", "copy"]
+EMPTY_SHAPES = [["array", 1, 0], ["stack", 1, 0], ["stack", 2, 0], ["stack", 0, 2], ["stack", 0, 0]]
+
+
+def audit_shards(tier):
+    out = [{"kind": "audit", "what": w} for w in ("models", "alias", "flavours", "edge")]
+    out.append({"kind": "audit", "what": "models_big"})
+    return out
+
+
+def flavour_variants():
+    v = []
+    for f in ("res_id", "atom_id", "charge"):
+        v += [[f, d] for d in INT_DTYPES if not (f == "res_id" and d == "uint64")]
+        v += [[f, x] for x in ("strided", "readonly", "list")]
+    for f in ("b_factor", "occupancy"):
+        v += [[f, x] for x in ("float16", "float32", "float64", "strided", "readonly", "list")]
+    v += [["coord", x] for x in ("float64", "float16", "strided_axis", "strided_atoms", "fortran", "readonly", "list")]
+    for f in ("chain_id", "res_name", "atom_name", "element", "ins_code"):
+        v += [[f, x] for x in ("U10", "S4", "object", "strided", "readonly", "list")]
+    v += [["hetero", x] for x in ("strided", "readonly", "int8", "list")]
+    v += [["box", x] for x in ("float64", "fortran", "strided", "readonly", "list")]
+    v += [["bonds", x] for x in ("rows_reversed", "pairs_swapped", "int32", "uint32", "added_one_by_one")]
+    v += [["annot_order", "reversed"], ["hybrid36_flag", "numpy_bool"], ["hybrid36_flag", "int"]]
+    v += [["model_arg", x] for x in ("int64", "int32", "uint8", "intsub", "float", "0d")]
+    v += [["extra_fields", x] for x in ("tuple", "ndarray", "reversed")]
+    return v
+
+
+def audit_cases(shard, tier):
+    w = shard["what"]
+    if w == "models":
+        for d in AUDIT_DEPTHS:
+            for n in (1, 2):
+                for h in ((False, True) if tier == "thorough" else (False,)):
+                    yield {"kind": "audit", "what": "models", "depth": d, "n": n, "h36": h}
+    elif w == "models_big":
+        for d in AUDIT_DEPTHS_BIG:
+            for n in ((1, 2) if tier == "thorough" else (1,)):
+                yield {"kind": "audit", "what": "models", "depth": d, "n": n, "h36": False}
+    elif w == "alias":
+        for name in list(REUSE_ITEMS) + list(REUSE_BAD):
+            yield {"kind": "audit", "what": "alias", "item": name}
+    elif w == "flavours":
+        for stack in (False, True):
+            for h in (False, True):
+                for var in flavour_variants():
+                    yield {"kind": "audit", "what": "flavours", "stack": stack, "h36": h, "var": var}
+    elif w == "edge":
+        for sh in EMPTY_SHAPES:
+            for h in (False, True):
+                yield {"kind": "audit", "what": "empty", "shape": sh, "h36": h}
+        for name in REUSE_ITEMS:
+            for path in IO_PATHS:
+                yield {"kind": "audit", "what": "io", "item": name, "path": path}
+    else:
+        raise ValueError(shard)
+
+
+def deep_canon(arr):
+    return (canon_result(arr), str(arr.coord.dtype), [(c, str(arr.get_annotation(c).dtype)) for c in
+                                                       sorted(arr.get_annotation_categories())])
+
+
+def mutate_everything(s):
+    """Change every array of a structure in place."""
+    s.coord += 7.0
+    for cat in s.get_annotation_categories():
+        a = s.get_annotation(cat)
+        if a.dtype.kind in "iuf":
+            a += 3
+        elif a.dtype.kind == "b":
+            a[:] = ~a
+        else:
+            a[:] = "Q"
+    if s.box is not None:
+        s.box *= 2.0
+    if s.bonds is not None and s.array_length() > 1:
+        s.bonds.add_bond(0, s.array_length() - 1, 3)
+        s.bonds.remove_bond(0, 1)
+
+
+def flavour_base(stack):
+    m, n = (2 if stack else 1), 3
+    return {
+        "m": m, "n": n, "chain_id": ["A", "A", "B"], "res_id": [1, 2, 3], "ins_code": ["", "A", ""],
+        "res_name": ["UNX", "UN", "U"], "hetero": [True, True, False], "atom_name": ["C1", "CA", "N"],
+        "element": ["C", "C", "N"],
+        "coord": [[[f32(10 * mm + 1.5 * p + 0.25 * ax - 3) for ax in range(3)] for p in range(n)] for mm in range(m)],
+        "atom_id": [5, 6, 7], "b_factor": [1.5, 20.25, 30.0], "occupancy": [1.0, 0.5, 0.25], "charge": [1, 0, 2],
+        "box": [[f32(x) for x in row] for row in M.vectors_from_cell(*BOXES["tric"])], "b32": False,
+    }
+
+
+FLAVOUR_BONDS = [[0, 1, 1], [1, 2, 2]]
+UNSPEC_FLAVOURS = {"float16", "object", "S4", "list", "float", "0d", "ndarray"}
+
+
+def strided_copy(a, axis=0):
+    a = np.asarray(a)
+    shape = list(a.shape)
+    shape[axis] *= 2
+    big = np.zeros(shape, dtype=a.dtype)
+    idx = [slice(None)] * a.ndim
+    idx[axis] = slice(None, None, 2)
+    big[tuple(idx)] = a
+    v = big[tuple(idx)]
+    assert not v.flags.c_contiguous or v.size <= 1
+    return v
+
+
+def apply_flavour(arr, e, stack, field, fl):
+    """Replace one array of arr by another representation of the same values."""
+    import biotite.structure as struc
+
+    if field == "bonds":
+        rows = [list(r) for r in FLAVOUR_BONDS]
+        if fl == "rows_reversed":
+            rows = rows[::-1]
+        elif fl == "pairs_swapped":
+            rows = [[j, i, t] for i, j, t in rows]
+        if fl == "added_one_by_one":
+            bl = struc.BondList(e["n"])
+            for i, j, t in rows[::-1]:
+                bl.add_bond(j, i, t)
+            arr.bonds = bl
+        else:
+            arr.bonds = struc.BondList(e["n"], np.array(rows, dtype=fl if fl in ("int32", "uint32") else "int64"))
+        return
+    if field == "annot_order":
+        for cat in ("atom_id", "b_factor", "occupancy", "charge"):
+            arr.del_annotation(cat)
+        for cat in ("charge", "occupancy", "b_factor", "atom_id"):
+            arr.set_annotation(cat, np.array(e[cat]))
+        return
+    if field == "coord":
+        c = np.array(e["coord"] if stack else e["coord"][0], dtype=np.float32)
+        if fl in ("float64", "float16"):
+            c = c.astype(fl)
+        elif fl == "strided_axis":
+            c = strided_copy(c, c.ndim - 1)
+        elif fl == "strided_atoms":
+            c = strided_copy(c, c.ndim - 2)
+        elif fl == "fortran":
+            c = np.asfortranarray(c)
+        elif fl == "readonly":
+            c.flags.writeable = False
+        elif fl == "list":
+            c = c.tolist()
+        arr.coord = c
+        return
+    if field == "box":
+        b = np.array(e["box"], dtype=np.float32)
+        b = np.repeat(b[None], e["m"], axis=0) if stack else b
+        if fl == "float64":
+            b = b.astype(float)
+        elif fl == "fortran":
+            b = np.asfortranarray(b)
+        elif fl == "strided":
+            b = strided_copy(b, b.ndim - 1)
+        elif fl == "readonly":
+            b.flags.writeable = False
+        elif fl == "list":
+            b = b.tolist()
+        arr.box = b
+        return
+    vals = e[field]
+    base = np.array(vals)
+    if fl in INT_DTYPES or fl in ("float16", "float32", "float64", "U10", "S4", "object", "int8"):
+        a = np.array(vals, dtype=fl)
+    elif fl == "strided":
+        a = strided_copy(base)
+    elif fl == "readonly":
+        a = base.copy()
+        a.flags.writeable = False
+    elif fl == "list":
+        a = list(vals)
+    else:
+        raise ValueError((field, fl))
+    if field in ("atom_id", "b_factor", "occupancy", "charge"):
+        arr.set_annotation(field, a)
+    else:
+        setattr(arr, field, a)
+
+
+def run_audit_case(ctx, case, count=False):
+    import os
+    import tempfile
+
+    import biotite.structure as struc
+    from biotite.structure.io.pdb import PDBFile
+
+    from mc import loader
+
+    what = case["what"]
+
+    def fail(site, mode, klass, msg, exp, obs):
+        ctx.violation("%s|%s|%s" % (site, mode, klass), msg, case, expected=exp, observed=obs)
+        return True
+
+    if count:
+        ctx.ev(1, 1)
+    # ---- MANY ITEMS / SIZE SWITCH: number of models around every width change of the MODEL serial ---------
+    if what == "models":
+        d, n, h36 = case["depth"], case["n"], case["h36"]
+        if not ctx.journal(case):
+            return
+        klass = "model_count_%d_digits" % len(str(d)) if d <= 9999 else "model_count_exceeds_serial_column"
+        if count:
+            ctx.count("accepted" if d <= 9999 else "unspecified")
+        e = {"m": d, "n": n, "chain_id": ["A"] * n, "res_id": [1 + p for p in range(n)], "ins_code": [""] * n,
+             "res_name": ["UNX"] * n, "hetero": [False] * n, "atom_name": ["C%d" % (p + 1) for p in range(n)],
+             "element": ["C"] * n,
+             "coord": [[[f32(((mm * 7 + p * 3 + ax) % 1999) * 0.125 - 100.0) for ax in range(3)] for p in range(n)]
+                       for mm in range(d)],
+             "atom_id": None, "b_factor": None, "occupancy": None, "charge": None, "box": None, "b32": False}
+        f = PDBFile()
+        try:
+            f.set_structure(build(e, True), hybrid36=h36)
+        except Exception as x:  # noqa: BLE001
+            ctx.outcome(("models", d, n, "raised"))
+            if d <= 9999:
+                fail("PDBFile.set_structure", "unexpected_" + type(x).__name__, klass, "stack within the limits refused", "file",
+                     repr(x)[:200])
+            return
+        lines = [str(x) for x in f.lines]
+        ctx.outcome(("models", d, n, len(lines), lines[-2]))
+        cl = {"atom_id": "A", "res_id": ["A"] * n}
+        bad = check_layout(lines, e, h36, cl)
+        if bad:
+            return fail("PDBFile.set_structure", "column_shift", klass, "layout law broken at %s: %s" % bad, "standard columns",
+                        lines[-3:])
+        rb = readback(lines, e, cl)
+        if rb:
+            return fail("PDBFile.get_structure", rb[0], klass, "read-back differs (%s)" % rb[3], rb[1] if d < 50 else str(rb[1])[:300],
+                        rb[2] if d < 50 else str(rb[2])[:300])
+        return
+    # ---- INPUT ALIASING + arguments after an error ----------------------------------------------------------
+    if what == "alias":
+        name = case["item"]
+        valid = name in REUSE_ITEMS
+        if count:
+            ctx.count("accepted" if valid else "refused")
+        arr, h36 = reuse_build(name)
+        snap = deep_canon(arr)
+        f = PDBFile()
+        try:
+            f.set_structure(arr, hybrid36=h36)
+            raised = False
+        except Exception:  # noqa: BLE001
+            raised = True
+        ctx.outcome(("alias", name, raised))
+        kl = "valid_structure" if valid else "refused_structure"
+        if raised == valid:
+            return fail("PDBFile.set_structure", "unexpected_exception" if raised else "not_refused", kl, "wrong acceptance", valid,
+                        not raised)
+        if deep_canon(arr) != snap:
+            return fail("PDBFile.set_structure", "argument_modified", kl, "set_structure changed the structure it was given",
+                        snap[0][:300], deep_canon(arr)[0][:300])
+        if not valid:
+            return
+        ref_lines, ref_obs = reuse_ref(name)
+        mutate_everything(arr)
+        if [str(x) for x in f.lines] != ref_lines or reuse_observe(f) != ref_obs:
+            return fail("PDBFile.set_structure", "shares_state_with_argument", kl,
+                        "changing the structure after set_structure changed the file", ref_lines[:4], [str(x) for x in f.lines][:4])
+        ef = list(EXTRA)
+        wb = not REUSE_ITEMS[name].get("wrap_ids")  # wrapped serials are not increasing: CONECT cannot be resolved
+        s = f.get_structure(extra_fields=ef, include_bonds=wb)
+        s1 = f.get_structure(model=1, extra_fields=ef, include_bonds=wb)
+        if ef != EXTRA:
+            return fail("PDBFile.get_structure", "argument_modified", "extra_fields", "extra_fields list changed", EXTRA, ef)
+        mutate_everything(s)
+        mutate_everything(s1)
+        for g in (f.get_coord(), f.get_coord(model=1), f.get_b_factor(), f.get_b_factor(model=-1)):
+            g[...] = -1.0
+        got = reuse_observe(f)
+        for (gname, st, val), (_, rst, rval) in zip(got, ref_obs):
+            if (st, val) != (rst, rval):
+                return fail("PDBFile." + gname, "result_shares_state_with_file", kl,
+                            "modifying a returned object changed what the file returns next", [rst, rval[:300]], [st, val[:300]])
+        if [str(x) for x in f.lines] != ref_lines:
+            return fail("PDBFile.getters", "result_shares_state_with_file", kl, "lines changed", ref_lines[:4],
+                        [str(x) for x in f.lines][:4])
+        return
+    # ---- ARRAY FLAVOURS + ORDER INDEPENDENCE ---------------------------------------------------------------------
+    if what == "flavours":
+        stack, h36, (field, fl) = case["stack"], case["h36"], case["var"]
+        klass = "%s_%s" % (field, fl)
+        e = flavour_base(stack)
+
+        def canonical():
+            a = build(e, stack)
+            a.bonds = struc.BondList(e["n"], np.array(FLAVOUR_BONDS, dtype=np.int64))
+            return a
+
+        f0 = PDBFile()
+        f0.set_structure(canonical(), hybrid36=h36)
+        ref_lines = [str(x) for x in f0.lines]
+        strict = fl not in UNSPEC_FLAVOURS and not (field == "atom_id" and fl in ("int8", "int16", "uint8", "uint16")) \
+            and not (field == "hetero" and fl == "int8")
+        if count:
+            ctx.count("accepted" if strict else "unspecified")
+        if field in ("model_arg", "extra_fields"):
+            try:
+                if field == "model_arg":
+                    want = [canon_result(f0.get_structure(model=k, extra_fields=EXTRA)) for k in (1, -1)] + [
+                        canon_result(f0.get_coord(model=1)), canon_result(f0.get_b_factor(model=-1))]
+                    got = [canon_result(f0.get_structure(model=_as_type(k, fl), extra_fields=EXTRA)) for k in
+                           ((1, -1) if fl[0] != "u" else (1, e["m"]))]
+                    if fl[0] == "u":
+                        want[1] = canon_result(f0.get_structure(model=e["m"], extra_fields=EXTRA))
+                    got += [canon_result(f0.get_coord(model=_as_type(1, fl))),
+                            canon_result(f0.get_b_factor(model=_as_type(-1 if fl[0] != "u" else e["m"], fl)))]
+                else:
+                    want = canon_result(f0.get_structure(extra_fields=EXTRA))
+                    ef = {"tuple": tuple(EXTRA), "ndarray": np.array(EXTRA), "reversed": EXTRA[::-1]}[fl]
+                    got = canon_result(f0.get_structure(extra_fields=ef))
+            except Exception as x:  # noqa: BLE001
+                ctx.outcome(("flavour", klass, "raised", type(x).__name__))
+                if strict:
+                    fail("PDBFile.get_structure", "unexpected_" + type(x).__name__, klass, "argument of another type refused",
+                         "result", repr(x)[:200])
+                return
+            ctx.outcome(("flavour", klass, "returned"))
+            if got != want:
+                fail("PDBFile.get_structure", "result_depends_on_argument_type", klass, "result differs from the plain-int / list call",
+                     str(want)[:300], str(got)[:300])
+            return
+        arr = canonical()
+        flag = h36
+        if field == "hybrid36_flag":
+            flag = np.bool_(h36) if fl == "numpy_bool" else int(h36)
+        else:
+            try:
+                apply_flavour(arr, e, stack, field, fl)
+            except Exception as x:  # noqa: BLE001
+                # the container itself does not take this representation: nothing to write
+                ctx.count("flavour_not_constructible")
+                ctx.outcome(("flavour", klass, "not constructible", type(x).__name__))
+                return
+            if field in ("res_id", "atom_id", "charge") and fl in INT_DTYPES and arr.get_annotation(field).dtype.kind not in "iu":
+                # AtomArray.set_annotation promotes uint64 together with its own int64 default to float64 (atoms.py,
+                # property C01): the PDB code never sees an integer array of this flavour
+                ctx.count("flavour_changed_by_container")
+                ctx.outcome(("flavour", klass, "container stores", str(arr.get_annotation(field).dtype)))
+                return
+        f = PDBFile()
+        try:
+            f.set_structure(arr, hybrid36=flag)
+        except Exception as x:  # noqa: BLE001
+            ctx.outcome(("flavour", klass, "raised", type(x).__name__))
+            if strict:
+                fail("PDBFile.set_structure", "unexpected_" + type(x).__name__, klass,
+                     "same values in another array representation were refused", "file", "%s: %s" % (type(x).__name__, str(x)[:200]))
+            return
+        lines = [str(x) for x in f.lines]
+        ctx.outcome(("flavour", klass, tuple(lines)))
+
+        def conect_pairs(lns):  # order of records / partners is not prescribed: compare as a set of pairs
+            out = set()
+            for ln in lns:
+                if ln.startswith("CONECT"):
+                    c, ps = M.split_conect_line(ln)
+                    out |= {frozenset((c.strip(), q.strip())) for q in ps}
+            return out
+
+        if field == "bonds":
+            same = conect_pairs(lines) == conect_pairs(ref_lines)
+            lines = [ln for ln in lines if not ln.startswith("CONECT")] + ["CONECT (as a set)"] * (not same)
+            ref_lines = [ln for ln in ref_lines if not ln.startswith("CONECT")]
+        if lines != ref_lines:
+            k = next((i for i, (a, b) in enumerate(zip(lines, ref_lines)) if a != b), min(len(lines), len(ref_lines)))
+            fail("PDBFile.set_structure", "lines_depend_on_array_flavour", klass,
+                 "same values in another array representation give another file", ref_lines[k:k + 2], lines[k:k + 2])
+        return
+    # ---- EMPTY PIECES ------------------------------------------------------------------------------------------
+    if what == "empty":
+        kind, m, n = case["shape"]
+        if count:
+            ctx.count("unspecified")
+        arr = struc.AtomArrayStack(m, n) if kind == "stack" else struc.AtomArray(n)
+        if n:
+            arr.coord[...] = 0.0
+        f = PDBFile()
+        try:
+            f.set_structure(arr, hybrid36=case["h36"])
+        except Exception as x:  # noqa: BLE001
+            ctx.outcome(("empty", kind, m, n, "raised", type(x).__name__))
+            return
+        lines = [str(x) for x in f.lines]
+        ctx.outcome(("empty", kind, m, n, tuple(lines)))
+        if any(ln.startswith(("ATOM", "HETATM")) for ln in lines):
+            return fail("PDBFile.set_structure", "atoms_from_nothing", "empty_structure", "ATOM record for a structure without atoms",
+                        [], lines[:4])
+        try:
+            g = PDBFile.read(io.StringIO("\n".join(lines) + "\n"))
+            s = g.get_structure()
+        except Exception:  # noqa: BLE001
+            return
+        if s.array_length() != 0 and s.stack_depth() != 0:
+            fail("PDBFile.get_structure", "roundtrip_atom_count", "empty_structure", "atoms read from a file without ATOM records", 0,
+                 [s.stack_depth(), s.array_length()])
+        return
+    # ---- I/O PATHS / PARSE STATE -------------------------------------------------------------------------------
+    if what == "io":
+        name, path = case["item"], case["path"]
+        strict = path in ("stringio", "file", "fileobj", "rstrip")
+        if count:
+            ctx.count("accepted" if strict else "unspecified")
+        ref_lines, ref_obs = reuse_ref(name)
+        arr, h36 = reuse_build(name)
+        f = PDBFile()
+        f.set_structure(arr, hybrid36=h36)
+        try:
+            if path == "copy":
+                g = f.copy()
+                obs = reuse_observe(g)
+                if any(st == "exc" for _, st, _ in obs) and not all(st == "exc" or gname == "get_remark" for gname, st, _ in obs):
+                    pass
+                if all(st == "exc" for gname, st, _ in obs if gname != "get_remark"):
+                    ctx.outcome(("io", name, path, "copy unusable"))
+                    ctx.count("copy_getters_raise")
+                    return
+            else:
+                buf = io.StringIO()
+                if path in ("file", "fileobj"):
+                    with tempfile.TemporaryDirectory(dir=str(loader.BUILD)) as d:
+                        fn = os.path.join(d, "x.pdb")
+                        f.write(fn)
+                        if path == "file":
+                            g = PDBFile.read(fn)
+                        else:
+                            with open(fn) as fh:
+                                g = PDBFile.read(fh)
+                else:
+                    f.write(buf)
+                    text = buf.getvalue()
+                    if path == "rstrip":
+                        text = "\n".join(ln.rstrip() for ln in text.split("\n"))
+                    elif path == "crlf":
+                        text = text.replace("\n", "\r\n")
+                    g = PDBFile.read(io.StringIO(text))
+                obs = reuse_observe(g)
+        except Exception as x:  # noqa: BLE001
+            ctx.outcome(("io", name, path, "raised", type(x).__name__))
+            if strict:
+                fail("PDBFile.read", "unexpected_" + type(x).__name__, "io_" + path, "written file not readable through this path",
+                     "file object", repr(x)[:200])
+            return
+        ctx.outcome(("io", name, path, "ok"))
+        for (gname, st, val), (_, rst, rval) in zip(obs, ref_obs):
+            if (st, val) != (rst, rval):
+                return fail("PDBFile.read", "stale_" + gname, "io_" + path,
+                            "%s after write()/read() differs from the object that was written" % gname, [rst, rval[:300]], [st, val[:300]])
+        return
+    raise ValueError(case)
